@@ -26,6 +26,9 @@ def steps_on_path (fnode, path):
       elif isinstance(t, ast.Name):
         b, k = q.linear(v, None)
         if b == t.id and k != 0: out.append(Step('add', t.id, k, n))
+        elif isinstance(v, ast.BinOp) and isinstance(v.op, ast.Add) and isinstance(v.left, ast.Name) and isinstance(v.right, ast.Name) and t.id in (v.left.id, v.right.id) and v.left.id != v.right.id:
+          # cursor = cursor + size  (the spelled-out form of cursor += size)
+          out.append(Step('add', t.id, v.right if v.left.id == t.id else v.left, n))
         elif isinstance(v, ast.Name) and v.id != t.id:
           out.append(Step('assign', t.id, v, n))        # size decided from a path fact  v - t == S
     for c in q.node_calls(n):
